@@ -70,7 +70,7 @@ AGENT_C11 = {"cmd": "agent", "driver": "AgentDriver", "sections": None, "eval_re
 
 CHECKS = {
     "C01": {
-        "lean": ["DrummerVerif.Props.C01", "DrummerVerif.Props.Witness", "DrummerVerif.Props.WitnessHeal"],
+        "lean": ["DrummerVerif.Props.C01", "DrummerVerif.Props.Witness", "DrummerVerif.Props.WitnessHeal", "DrummerVerif.Props.WitnessQuiet"],
         "streams": [loopstream(25, 600),
                     AGENT_SCENARIO],
         "rule": RULE_LOOP + " | execute step on real NodeHosts (agent harness, scenario part): every row of the launch / join / restore table the scheduler can produce (launch on a fresh host, join without data, join again after a restart with data, restore with data, restore without data), fenced add / delete, kill, compared with the model's table `instantiate` that the fleet half of the loop model follows (theorem fleet_model_follows_agent_table)",
@@ -197,7 +197,7 @@ CHECKS = {
         "assumptions": DB_ASSUME,
     },
     "C11": {
-        "lean": ["DrummerVerif.Props.C11", "DrummerVerif.Props.Witness", "DrummerVerif.Props.WitnessDb"],
+        "lean": ["DrummerVerif.Props.C11", "DrummerVerif.Props.Witness", "DrummerVerif.Props.WitnessDb", "DrummerVerif.Props.WitnessQuiet"],
         "streams": [dbstream("c11", 250, 4000, ["res", "img", "kill"], replicas=True), dbstream("general", 150, 2000, ["res", "img", "kill"]),
                     schedstream("general", 150, 2000, ["maintain"]), schedstream("repair", 200, 3000, ["maintain"]), loopstream(12, 300), AGENT_C11],
         "rule": RULE_DB % "c11 (every second report of a non-member host carries a stray replica) and general",
